@@ -268,3 +268,46 @@ c15_back!(c15_back_nettrace_be, Shape { storage: false, htyp: H_EXT_BE, msin: M_
 c15_back!(c15_back_nettrace_empty, Shape { storage: false, htyp: H_EXT_LE, msin: M_NW_CAN_V, ids: IDS_FULL, payload: P::NetTrace(&[]) });
 c15_back!(c15_back_verbose_empty, Shape { storage: false, htyp: H_ALL_BE, msin: M_LOG_INFO_V, ids: IDS_SHORT, payload: P::Verbose(&[]) });
 c15_back!(c15_back_verbose_bool, Shape { storage: false, htyp: H_EXT_LE, msin: M_LOG_INFO_V, ids: IDS_FULL, payload: P::Verbose(&[arg(AK::Bool)]) });
+
+/// add_storage_header with boundary ECU ids: an EMPTY header ECU id is still the header's id (the default "ECU" is
+/// used only when the header has no ECU id at all); a full 4-byte id is copied unchanged.
+#[kani::proof]
+#[kani::unwind(12)]
+fn c15_storage_header_boundary_ecu_ids() {
+    let secs: u32 = kani::any();
+    let micros: u32 = kani::any();
+    let mut k = 0;
+    while k < 3 {
+        let ecu: Option<String> = match k {
+            0 => Some(String::new()),
+            1 => Some(String::from("Ec7_")),
+            _ => None,
+        };
+        let conf = MessageConfig {
+            version: 1,
+            counter: kani::any(),
+            endianness: Endianness::Little,
+            ecu_id: ecu,
+            session_id: None,
+            timestamp: None,
+            payload: PayloadContent::NonVerbose(kani::any(), Vec::new()),
+            extended_header_info: None,
+        };
+        let m = Message::new(conf, None).add_storage_header(Some(DltTimeStamp { seconds: secs, microseconds: micros }));
+        match &m.storage_header {
+            Some(sh) => {
+                assert!(sh.timestamp.seconds == secs && sh.timestamp.microseconds == micros, "storage time");
+                let want: &[u8] = match k {
+                    0 => b"",
+                    1 => b"Ec7_",
+                    _ => b"ECU",
+                };
+                assert!(sh.ecu_id.as_bytes() == want, "storage ECU id is not the header ECU id (or the default id when the header has none)");
+            }
+            None => assert!(false, "no storage header added"),
+        }
+        std::mem::forget(m);
+        k += 1;
+    }
+    kani::cover!(true);
+}
